@@ -1731,9 +1731,10 @@ class InTablePhase(Phase):
     def insertText(self, token):
         # If we get here there must be at least one non-whitespace character
         # Do the table magic!
+        fosterParenting = self.tree.insertFromTable
         self.tree.insertFromTable = True
         self.parser.phases["inBody"].processCharacters(token)
-        self.tree.insertFromTable = False
+        self.tree.insertFromTable = fosterParenting
 
     def startTagCaption(self, token):
         self.clearStackToTableContext()
@@ -1792,9 +1793,10 @@ class InTablePhase(Phase):
     def startTagOther(self, token):
         self.parser.parseError("unexpected-start-tag-implies-table-voodoo", {"name": token["name"]})
         # Do the table magic!
+        fosterParenting = self.tree.insertFromTable
         self.tree.insertFromTable = True
         new_token = self.parser.phases["inBody"].processStartTag(token)
-        self.tree.insertFromTable = False
+        self.tree.insertFromTable = fosterParenting
         return new_token
 
     def endTagTable(self, token):
@@ -1819,9 +1821,10 @@ class InTablePhase(Phase):
     def endTagOther(self, token):
         self.parser.parseError("unexpected-end-tag-implies-table-voodoo", {"name": token["name"]})
         # Do the table magic!
+        fosterParenting = self.tree.insertFromTable
         self.tree.insertFromTable = True
         self.parser.phases["inBody"].processEndTag(token)
-        self.tree.insertFromTable = False
+        self.tree.insertFromTable = fosterParenting
 
     startTagHandler = _utils.MethodDispatcher([
         ("html", Phase.startTagHtml),
